@@ -413,6 +413,93 @@ def registry_path_scenario(chk):
     return len(cases)
 
 
+def predicate_path_scenario(chk):
+    """A fourth kind of type: one printed through a PREDICATE registration whose printer prints a child (it passes
+    through the base dispatch and, nested, through the whole dispatch path again), against first prints of lazily
+    registered types. Every call must return (a lock-order inversion between two module locks shows up as two calls
+    that never return). Runs LAST: threads left behind by a deadlock keep the module locks, after which no call
+    into the package returns; the scenario stops at the first such schedule. Judged by ConcurrentCalls.tla."""
+    q = chk.tier == 'quick'
+    text_id = {'P1': 1, 'PBox(P2)': 2, 'P3': 3, 'PBox(P1)': 4}
+    pairs = [('PB', 'K'), ('K', 'PB'), ('PB', 'K2'), ('PBK', 'K'), ('PB', 'PB')]
+    expected = {'K': 'P1', 'K2': 'P3', 'PB': 'PBox(P2)', 'PBK': 'PBox(P1)'}
+
+    class PBox:
+        def __init__(self, child):
+            self.child = child
+
+        def __repr__(self):
+            return 'REPR'
+
+    def fresh():
+        sc = Scenario()
+        K2 = type('K2', (), {'__module__': sc.key.rsplit('.', 1)[0], '__repr__': lambda self: 'REPR'})
+        sc.cls['K2'] = K2
+        sc.key2 = sc.key.rsplit('.', 1)[0] + '.K2'
+        P.register_pretty(sc.key2)(lambda v, ctx: 'P3')
+        sc.npred = len(PP._PREDICATE_REGISTRY)
+        P.register_pretty(predicate=lambda x: isinstance(x, PBox))(lambda v, ctx: P.pretty_call(ctx, 'PBox', v.child))
+        with warnings.catch_warnings():
+            warnings.simplefilter('ignore')
+            P.pformat(sc.cls['R']())
+        sc.make = {'K': lambda: sc.cls['K'](), 'K2': lambda: K2(), 'PB': lambda: PBox(sc.cls['R']()),
+                   'PBK': lambda: PBox(sc.cls['K']())}
+        return sc
+
+    def drop(sc):
+        PP._DEFERRED_DISPATCH_BY_NAME.pop(sc.key2, None)
+        del PP._PREDICATE_REGISTRY[sc.npred:]
+        sc.cleanup()
+
+    def job(sc, c):
+        def fn():
+            with warnings.catch_warnings():
+                warnings.simplefilter('ignore')
+                return P.pformat(sc.make[c]())
+        return fn
+
+    def got(r):
+        return text_id.get(r[1], 0) if r[0] == 'ok' else -1
+    cases, meta = [], {}
+    stuck = False
+    for a, b in pairs:
+        if stuck:
+            break
+        sc = fresh()
+        try:
+            _, _, nsteps = sched.run_with_preemption(job(sc, a), job(sc, b), None, [PP.__file__], locks=module_locks())
+        finally:
+            drop(sc)
+        stride = max(1, nsteps // (60 if q else 1000))
+        for k in range(1, nsteps + 1, stride):
+            sc = fresh()
+            ra, rb, _ = sched.run_with_preemption(job(sc, a), job(sc, b), k, [PP.__file__], locks=module_locks())
+            cid = len(cases) + 1
+            cases.append({'id': cid, 'calls': [{'t': 1, 'seq': text_id[expected[a]], 'got': got(ra)},
+                                               {'t': 2, 'seq': text_id[expected[b]], 'got': got(rb)}]})
+            meta[cid] = {'threads': ['print of %s' % a, 'print of %s' % b], 'traced': 'every function of prettyprinter.py',
+                         'kinds': 'PB: printed through a predicate registration, prints a directly registered child; PBK: the '
+                                  'same around a lazily registered child; K, K2: lazily registered, first print',
+                         'thread_0_preempted_before_its_traced_line': k, 'results': [ra, rb]}
+            chk.nontrivial(('predicate-lines', a, b, k))
+            if 'did not finish' in ra[1] or 'did not finish' in rb[1]:
+                stuck = True         # the threads (and the locks they hold) are lost: nothing more can be printed
+                break
+            drop(sc)
+    v, st = common.tlc_batch('ConcurrentCalls', CC_CFG, cases, os.path.join(chk.workdir, 'ccpred'), tags=('SAFE',),
+                             min_per_shard=100)
+    chk.add_model(st)
+    nv = 0
+    for c in cases:
+        if c['id'] not in v['SAFE']:
+            nv += 1
+            chk.violation('C20.sequential', 'two concurrent prints, one through a predicate-registered printer: a call did not '
+                          'return its sequential text / never returned: %r' % (meta[c['id']],), meta[c['id']])
+    chk.stage('predicate-path schedules', executions=len(cases), violations=nv, abandoned_after_deadlock=stuck)
+    chk.cov['traces_validated_against_impl'] += len(cases)
+    return len(cases)
+
+
 def check_c20(chk, args):
     q = chk.tier == 'quick'
     locks = module_locks()
@@ -495,6 +582,7 @@ def check_c20(chk, args):
     nsched += layout_path_scenario(chk)
     nsched += registry_path_scenario(chk)
     nsched += overlap_scenario(chk)
+    nsched += predicate_path_scenario(chk)      # last: see its docstring
     chk.cov['evaluations'] = nsched
     chk.cov['traces_validated_against_impl'] += nsched
     chk.cov['rule'] = ('executions of 2-3 threads printing lazily registered / subclass / directly registered / '
